@@ -76,6 +76,18 @@ CLAIMS = {
         technique="inductive linear field invariants over enumerated CFG paths (sound unsigned-comparison model), must-fact "
                   "dataflow with a MIN-lowering rule, who-may-write enumeration, bit provenance of the header byte",
         design="5 C15"),
+    "C01": dict(
+        text="Clause-level structural decision: every write_tun on either side, and every client-to-client hand-over, is "
+             "dominated on every path by a successful uncompress (zlib adler32) whose output buffer and length are exactly what "
+             "is written, with no intervening write; what is compressed is exactly the buffer and length read_tun returned and "
+             "what enters the sender state is exactly the compressor's output; client and server agree bit for bit on every "
+             "field of the upstream 5-character data header, the downstream 2-byte header and the ping ack byte (bit-level "
+             "provenance from the writer's stores to the reader's uses, through the Base32 digit functions). Not decided: which "
+             "fragments the reassembly accepts under loss/duplication/reordering - a wrong acceptance is caught at run time by "
+             "the checksum these rules make mandatory, except with probability 2^-32.",
+        technique="must-fact dataflow (call-result facts killed by any write to the buffers involved) for the gates; bit-level "
+                  "provenance for writer/reader header agreement",
+        design="5 C01"),
 }
 
 NA = {
